@@ -118,6 +118,11 @@ REFACTORS = [
     ('r_e_seqcst', ['C16', 'C17'], [(E, 'global_epoch_.store(next_epoch, std::memory_order_release);', 'global_epoch_.store(next_epoch);', 1)], 'seq_cst store'),
     ('r_z_reject_spelled', ['C19'], [(Z, '  if (max < min) {', '  if (min > max) {', 0)], 'same test spelled min > max'),
     ('r_z_pin_back', ['C06'], [(Z, '  zipf_cdf_.at(bin_num - 1) = 1.0;', '  zipf_cdf_.back() = 1.0;', 1)], 'pin through back()'),
+    ('r_p_rename_member', ['C01', 'C07', 'C10'], [(P, 'dest_', 'target_', 0), (PH, 'dest_', 'target_', 0), (P, 'lock_', 'word_', 0), (PH, 'lock_', 'word_', 0)], 'private members renamed'),
+    ('r_p_exchange_move', ['C07'], [(P, 'PessimisticLock::SGuard::operator=(  //\n    SGuard &&rhs) noexcept           //\n    -> SGuard &\n{\n  if (dest_) {\n    dest_->UnlockS();\n  }\n  dest_ = rhs.dest_;\n  rhs.dest_ = nullptr;', 'PessimisticLock::SGuard::operator=(  //\n    SGuard &&rhs) noexcept           //\n    -> SGuard &\n{\n  if (dest_ != nullptr) {\n    dest_->UnlockS();\n  }\n  dest_ = std::exchange(rhs.dest_, nullptr);', 1), (P, '#include <cstdint>', '#include <cstdint>\n#include <utility>', 1)], 'std::exchange in the move assignment'),
+    ('r_p_locks_handwritten_spin', ['C01', 'C08', 'C02'], [(P, '  SpinWithBackoff(\n      [](std::atomic_uint64_t *lock) -> bool {\n        auto cur = lock->load(kRelaxed);\n        return (cur & kXLock) == kNoLocks\n               && lock->compare_exchange_weak(cur, cur + kSLock, kAcquire, kRelaxed);\n      },\n      &lock_);\n  return SGuard{this};', '  while (true) {\n    auto cur = lock_.load(kRelaxed);\n    if ((cur & kXLock) == kNoLocks && lock_.compare_exchange_weak(cur, cur + kSLock, kAcquire, kRelaxed)) break;\n    CPP_UTILITY_SPINLOCK_HINT\n  }\n  return SGuard{this};', 1)], 'hand-written spin instead of the helper'),
+    ('r_e_sort_reverse_iter', ['C16', 'C20'], [(E, 'std::sort(protected_epochs.begin(), protected_epochs.end(), std::greater<size_t>{});', 'std::sort(protected_epochs.rbegin(), protected_epochs.rend());', 1)], 'descending sort through reverse iterators'),
+    ('r_z_auto_dist', ['C19'], [(ZH, 'thread_local std::uniform_real_distribution<double> uniform_dist{0.0, 1.0};  // NOLINT', 'std::uniform_real_distribution<double> uniform_dist{0.0, 1.0};', 1)], 'automatic distribution object'),
 ]
 
 
